@@ -47,11 +47,20 @@ Record reg := { cls : amap; ifc : amap; fn : amap }.
 Definition empty_reg : reg := {| cls := []; ifc := []; fn := [] |}.
 
 (* ---------------------------------------------------------------- base VM (runtime/vm.go) *)
-(* findClassCaseInsensitive: exact key; else any key equal under case folding *)
+(* findClassCaseInsensitive: exact key; else, among the keys equal under case folding, the SMALLEST key
+   (byte order; fix 59869f4 — before it the first match in Go map order) *)
+Fixpoint min_key (l : list (name * def)) : option (name * def) :=
+  match l with
+  | [] => None
+  | p :: r => match min_key r with
+              | Some q => if String.ltb (fst q) (fst p) then Some q else Some p
+              | None => Some p
+              end
+  end.
 Definition ci_get (m : amap) (n : name) : list def :=
   match aget m n with
   | Some d => [d]
-  | None => map snd (filter (fun p => fold_eqb (fst p) n) m)
+  | None => olist (option_map snd (min_key (filter (fun p => fold_eqb (fst p) n) m)))
   end.
 Definition b_get_class (r : reg) (n : name) : list def := ci_get (cls r) n.
 Definition b_get_iface (r : reg) (n : name) : list def := olist (aget (ifc r) n).
